@@ -74,9 +74,12 @@ def run_one(chk, beh, kind, prec, seed):
         one.update(xt, xd)
         sc = np.asarray(a.discriminant(np.asarray(one.compute())))
         col = np.asarray(a.convergence_traces[..., i])
-        if col.shape != sc.shape or not np.array_equal(col, sc.astype(col.dtype), equal_nan=True):
+        same = col.shape == sc.shape and (np.array_equal(col.astype('float64'), sc.astype('float64'), equal_nan=True) or
+                                          (col.dtype.kind == 'f' and np.array_equal(col, sc.astype(col.dtype), equal_nan=True)))      # rounding to a FLOAT precision is allowed, truncation to integers is not
+        if not same:
             return 'each column equals the scores of a fresh attack on exactly the traces processed up to that point', {'column': i, 'at': at, 'got': col.tolist(), 'fresh': sc.tolist()}
-    if want_pos and not np.array_equal(np.asarray(a.convergence_traces[..., -1]), np.asarray(a.scores).astype(a.convergence_traces.dtype), equal_nan=True):
+    lastc, fin = np.asarray(a.convergence_traces[..., -1]) if want_pos else None, np.asarray(a.scores)
+    if want_pos and not (np.array_equal(lastc.astype('float64'), fin.astype('float64'), equal_nan=True) or (lastc.dtype.kind == 'f' and np.array_equal(lastc, fin.astype(lastc.dtype), equal_nan=True))):
         return 'the last column equals the final scores', {}
     # same run without convergence
     b, _ = pl.build(kind, 'attack', prec, convergence_step=None)
@@ -117,6 +120,9 @@ def run(chk):
     c02.model(chk, 9 if q else 14, 10 if q else 16, 11 if q else 16, 2 if q else 3)
     behs = [b for b in c02.generate(chk, 7 if q else 9, 6 if q else 8, 8 if q else 10, 2, 'convergence behaviours') if b['step'] > 0]
     rng.shuffle(behs)
+    longb = [b for b in c02.generate(chk, 26 if q else 40, 3 if q else 4, 8 if q else 10, 1, 'long single runs (several steps)') if b['step'] > 0 and b['ns'][0] >= 3 * b['step'] and b['step'] % b['bs'] != 0]
+    rng.shuffle(longb)
+    behs = [x for pair in zip(longb, behs) for x in pair] + behs
     old = scared.Container._BATCH_SIZE
     try:
         kinds = ['CPA', 'DPA', 'SNR', 'MIA'] if q else pl.KINDS
@@ -127,6 +133,8 @@ def run(chk):
                 beh = behs[(nb * 7919) % len(behs)]
                 nb += 1
                 prec = 'float64' if nb % 2 else 'float32'
+                if kind == 'MIA' and nb % 3 == 0:
+                    prec = 'uint32'           # the integer accumulator type MIA accepts (and defaults to as a standalone distinguisher)
                 bad, info = run_one(chk, beh, kind, prec, chk.seed + nb)
                 chk.count((kind, json.dumps(beh, sort_keys=True), prec), nontrivial=len(beh['cols']) >= 2 or len(beh['ns']) >= 2)
                 chk.traces_validated += 1
